@@ -756,8 +756,11 @@ class Bundle:
         bits = (r // A) % (2 ** A)
         if bits == 0:
             bits = 2 ** A - 1
+        # every third conflict also lets agents *without* a legal claim copy the leader's (legal) choice: an illegal
+        # claimant contesting a legal one (e.g. [n (masked out for agent 0), n (masked in for agent 1)])
+        forced = (r // 97) % 3 == 0
         for a in range(A):
-            if a != leader and (bits >> a) & 1 and mask[a, target]:
+            if a != leader and (bits >> a) & 1 and (mask[a, target] or (forced and 0 <= target < mask.shape[1])):
                 base[a] = target
         return base.astype(self.act_dtype)
 
